@@ -14,7 +14,8 @@ use serde_json::{json, Value};
 // (G<i32> / G<u8>: the same trait path with different generic arguments are different bounds)
 // (`H<Out = u8>`: a bound with an associated-type binding; `for<'x> L<'x>`: a higher-ranked bound)
 // (`Cmp<D>`: a bound that mentions the dependency parameter itself - named-generic forms only)
-const POOL: [&str; 10] = ["B0", "B1", "B2", "B3", "Clone", "G<i32>", "G<u8>", "H<Out = u8>", "for<'x> L<'x>", "Cmp<D>"];
+// (the last two: different traits whose paths end in the same segment)
+const POOL: [&str; 12] = ["B0", "B1", "B2", "B3", "Clone", "G<i32>", "G<u8>", "H<Out = u8>", "for<'x> L<'x>", "Cmp<D>", "pa::Same<u8>", "pb::Same<u8>"];
 
 /// `impl <POOL[b]> for <ty> {..}`
 fn impl_line(b: usize, ty: &str) -> String {
@@ -187,7 +188,7 @@ pub fn gen_case(t: &mut Tape, feature_unimock: bool) -> Case {
     for b in 0..4 {
         src.push_str(&format!("pub trait B{b} {{}}\n"));
     }
-    src.push_str("pub trait Extra {}\npub trait G<T> {}\npub trait H { type Out; }\npub trait L<'x> {}\npub trait Cmp<X: ?Sized> {}\n");
+    src.push_str("pub trait Extra {}\npub trait G<T> {}\npub trait H { type Out; }\npub trait L<'x> {}\npub trait Cmp<X: ?Sized> {}\npub mod pa { pub trait Same<T> {} }\npub mod pb { pub trait Same<T> {} }\n");
     if module {
         src.push_str(&format!("#[::entrait::entrait({attr})]\npub mod m {{\n    use super::*;\n"));
         for f in &fns {
@@ -264,6 +265,12 @@ pub fn gen_case(t: &mut Tape, feature_unimock: bool) -> Case {
     }
     if fns.iter().any(|f| f.bounds.contains(&9)) {
         classes.push("bound_mentions_the_dependency_parameter");
+    }
+    {
+        let all: Vec<usize> = fns.iter().flat_map(|f| f.bounds.iter().copied()).collect();
+        if all.contains(&10) && all.contains(&11) {
+            classes.push("two_traits_with_the_same_last_path_segment");
+        }
     }
     if fns.iter().any(|f| f.paren_mask != 0 && !f.bounds.is_empty()) {
         classes.push("parenthesised_bound");
